@@ -128,7 +128,7 @@ def gen(streams, tier, i):
                                           any(x.rstrip("+-") not in ids for x in ln.split("\t")[2].split(" ")))]
     sr = streams.get("schedule")
     order, mode = hist.schedule(sr, lines)
-    how = cfg.choice(["to_s", "to_s", "to_obj", "per_line"])
+    how = cfg.choice(["to_s", "to_s", "to_obj", "per_line", "per_line_rev"])
     return {"cfg": {"version": src, "order": mode, "how": how, "vlevel": cfg.choice([1, 2, 3]), "view_only": view_only},
             "lines": order, "ops": [{"op": "convert"}]}
 
@@ -143,8 +143,18 @@ def convert_text(g, target, how):
 
     def f2():
         out = []
-        for l in g.lines:
+        ls = list(g.lines)
+        if how == "per_line_rev":
+            # the lines converted one by one in the opposite order (paths and groups before the edges they go
+            # through); every line is converted twice, the second answer must be the first
+            ls.reverse()
+        for l in ls:
             s = getattr(l, "to_%s_s" % target)()
+            if how == "per_line_rev":
+                s2 = getattr(l, "to_%s_s" % target)()
+                if s2 != s:
+                    raise core.Violation("conversion-not-repeatable", "%r converted twice to %s: %r then %r" %
+                                         (str(l), target, s, s2), direction=target)
             if s:
                 out.append(s)
         return "\n".join(out)
@@ -376,7 +386,7 @@ def _first_diff(extra, missing):
 
 def run_2_to_1(m, g, cfg, st):
     st.count("probe.gfa2_to_gfa1")
-    t = convert_text(g, "gfa1", "to_s" if cfg["how"] == "per_line" else cfg["how"])
+    t = convert_text(g, "gfa1", "to_s" if cfg["how"] in ("per_line", "per_line_rev") else cfg["how"])
     st.count("oracle.conversion_succeeds")
     if not t.ok:
         raise core.Violation("conversion-raised", "GFA2->GFA1 (%s) raised %s: %s" % (cfg["how"], t.excname, str(t.exc)[:300]),
